@@ -39,6 +39,7 @@ import (
 	"github.com/TarsCloud/TarsGo/tars/util/current"
 	"github.com/TarsCloud/TarsGo/tars/util/rogger"
 
+	"verif/appchild"
 	"verif/netlab"
 	rc "verif/refcodec"
 	"verif/resreg"
@@ -532,6 +533,7 @@ func loadTypes() []*tinfo {
 }
 
 func main() {
+	appchild.MaybeChild()
 	thorough := os.Getenv("VERIF_TIER") == "thorough"
 	var seed int64 = 1
 	fmt.Sscanf(os.Getenv("VERIF_SEED"), "%d", &seed)
@@ -640,6 +642,7 @@ func main() {
 			map[string]interface{}{"entry": c.entry, "mutation": c.kind, "what": c.what, "input_len": len(in), "input": hexClip(in), "exit": o.Exit, "stderr_tail": vlib.Tail(o.Stderr, 2500)})
 	})
 	livePhase(run, seed, thorough)
+	adminPhase(run)
 	run.Finish()
 }
 
